@@ -4,12 +4,12 @@
 //!
 //!   (<id> <kind> <parser> (<tok> ...))   ->  `<id> P<s>.<e> F<0|1>` | `<id> P- F<0|1>` | `<id> P! F<0|1>`
 //!                                            (+ ` R<s>.<e>` | ` R-` for `(regex N)`)
-//!   (<id> class (<tok> ...))             ->  `<id> C <tok>:<22 flags> ...`
+//!   (<id> class (<tok> ...))             ->  `<id> C <tok>:<34 flags> ...` (10 char, 10 u8, 2 ascii ident, 10 + 2 the one-cluster grapheme)
 //!
 //! Blank lines and lines whose first non-blank character is `;` are skipped (no output line).
 
 use chumsky::prelude::*;
-use chumsky::text::{self, Char};
+use chumsky::text::{self, Char, Grapheme, Graphemes};
 use std::io::Write;
 
 /// The fixed regex table for `(regex N)`.
@@ -258,6 +258,22 @@ where
     (pre, full)
 }
 
+type EG<'a> = extra::Err<Simple<'a, &'a Grapheme>>;
+
+fn run_graphemes<'src, P>(p: P, input: &'src Graphemes) -> (Pre, bool)
+where
+    P: Parser<'src, &'src Graphemes, &'src Graphemes, EG<'src>> + Clone,
+{
+    let r = p.clone().then_ignore(any().repeated()).parse(input);
+    let pre = match (r.has_errors(), r.output()) {
+        (false, Some(s)) => locate(input.as_bytes().as_ptr(), input.as_bytes().len(), s.as_bytes().as_ptr(), s.as_bytes().len()),
+        _ => Pre::Fail,
+    };
+    let r = p.parse(input);
+    let full = r.has_output() && !r.has_errors();
+    (pre, full)
+}
+
 /// Independent computation: leftmost-first match anchored at offset 0 of the haystack.
 fn regex_direct(n: usize, hay: &[u8]) -> Option<(usize, usize)> {
     regex_direct_at(n, hay, 0)
@@ -378,6 +394,45 @@ fn case_str(spec: &Spec, toks: &[u64]) -> Outcome {
     Outcome::Line(line)
 }
 
+/// `graphemes`: the same text as `str`, tokenized by chumsky into extended grapheme clusters (`&Graphemes`).
+/// Offsets are printed as char indices like `str`.
+fn case_graphemes(spec: &Spec, toks: &[u64]) -> Outcome {
+    let Some(owned) = to_string(toks) else {
+        return Outcome::Unsupported;
+    };
+    let text: &'static str =
+        std::str::from_utf8(leak_guarded(owned.as_bytes())).expect("guarded input is UTF-8");
+    let input: &'static Graphemes = Graphemes::new(text);
+    type I = &'static Graphemes;
+    type E = EG<'static>;
+    let leak_kw = |k: &[u64]| -> Option<&'static Graphemes> {
+        let s = to_string(k)?;
+        Some(Graphemes::new(&*Box::leak(s.into_boxed_str())))
+    };
+    let (pre, full) = match spec {
+        Spec::Int(r) => run_graphemes(text::int::<I, E>(*r), input),
+        Spec::Digits(r) => run_graphemes(text::digits::<I, E>(*r).to_slice(), input),
+        Spec::Ident => run_graphemes(text::ascii::ident::<I, E>(), input),
+        Spec::UIdent => run_graphemes(text::unicode::ident::<I, E>(), input),
+        Spec::Keyword(k) => match leak_kw(k) {
+            Some(k) => run_graphemes(text::ascii::keyword::<I, &'static Graphemes, E>(k), input),
+            None => return Outcome::Unsupported,
+        },
+        Spec::UKeyword(k) => match leak_kw(k) {
+            Some(k) => run_graphemes(text::unicode::keyword::<I, &'static Graphemes, E>(k), input),
+            None => return Outcome::Unsupported,
+        },
+        Spec::Whitespace => run_graphemes(text::whitespace::<I, E>().to_slice(), input),
+        Spec::InlineWhitespace => run_graphemes(text::inline_whitespace::<I, E>().to_slice(), input),
+        Spec::Newline => run_graphemes(text::newline::<I, E>().to_slice(), input),
+        Spec::PaddedInt(r) => run_graphemes(text::int::<I, E>(*r).padded(), input),
+        Spec::PaddedIdent => run_graphemes(text::ascii::ident::<I, E>().padded(), input),
+        Spec::Regex(_) | Spec::RegexAt(_, _) => return Outcome::Unsupported,
+    };
+    let conv = |off: usize| char_index(text, off);
+    Outcome::Line(format!("{} F{}", fmt_pre(pre, &conv), full as u8))
+}
+
 fn case_bytes(spec: &Spec, toks: &[u64]) -> Outcome {
     let Some(owned) = to_bytes(toks) else {
         return Outcome::Unsupported;
@@ -475,7 +530,16 @@ fn class_line(toks: &[u64]) -> String {
             (None, Some(y)) => y,
             (None, None) => "--".to_string(),
         };
-        out.push_str(&format!(" {}:{}{}{}", t, a, b, c));
+        // the same character as a one-code-point cluster (`Char for &Grapheme`); 3000000 is the cluster CR LF
+        let gs: Option<String> = if t == 3_000_000 { Some("\r\n".to_string()) } else { ch.map(String::from) };
+        let g = match &gs {
+            Some(s) => {
+                let gr: &Grapheme = Graphemes::new(s.as_str()).iter().next().expect("one cluster");
+                format!("{}{}", ten_flags(gr), ascii_flags(gr))
+            }
+            None => "-".repeat(12),
+        };
+        out.push_str(&format!(" {}:{}{}{}{}", t, a, b, c, g));
     }
     out
 }
@@ -496,12 +560,14 @@ fn run_case(sx: &Sx) -> Outcome {
             Some(toks) => Outcome::Line(class_line(&toks)),
             None => Outcome::Unsupported,
         },
-        ("str", 4) | ("bytes", 4) => {
+        ("str", 4) | ("bytes", 4) | ("graphemes", 4) => {
             let (Some(spec), Some(toks)) = (parse_spec(&items[2]), tok_list(&items[3])) else {
                 return Outcome::Unsupported;
             };
             if kind == "str" {
                 case_str(&spec, &toks)
+            } else if kind == "graphemes" {
+                case_graphemes(&spec, &toks)
             } else {
                 case_bytes(&spec, &toks)
             }
